@@ -29,6 +29,24 @@ CHECKS = {
             rapid("random", "TestC01Random", {"checks": 30000, "shards": 4}, {"checks": 400000, "shards": 16, "timeout": 6000}),
         ],
     },
+    "C02": {
+        "technique": "rapid random generation of diffs (from Diff and from public DiffElement fields), round-trip + differential oracle on rendered text, structure and patch effect",
+        "level_text": "Diffs produced by Diff under every option set and synthetic well-formed hunk sequences (all path kinds, absent / boundary / "
+                      "value context, 0..n removes and adds, strict-then-merge sequences, hostile string payloads) are rendered, read back, "
+                      "re-rendered, compared field by field and by their effect on target documents; colour output must be the plain output "
+                      "plus ANSI sequences. Exploration over sampled diffs; the reader's (state, line kind) transitions exercised are listed.",
+        "level_note": "Effect comparison is jd against jd (the diff vs the re-read diff); what a hunk should do is C03/C08's business. "
+                      "Sequences are at most 3 synthetic hunks; context of at most two lines.",
+        "rule": "leg diffs: d = a.Diff(b, opts) over C01's generator with payload strings and nasty keys, targets a and a perturbed document; "
+                "leg synthetic: 1-3 hunks built from DiffElement fields, strict hunks first then merge hunks, a target constructed to fit the first hunk "
+                "plus a random one. Non-trivial: >= 2 hunks, or a non-boundary context line, or a metadata line, or a multi-value set hunk, or a payload "
+                "needing JSON escapes; distinct by the full case.",
+        "assumptions": ["well-formedness of synthetic hunks = what checkDiffElement documents: several values only on index/set/multiset paths, void add only in merge hunks, context only on index hunks"],
+        "legs": [
+            rapid("diffs", "TestC02Diffs", {"checks": 20000, "shards": 4}, {"checks": 200000, "shards": 16, "timeout": 6000}),
+            rapid("synthetic", "TestC02Synthetic", {"checks": 30000, "shards": 4}, {"checks": 300000, "shards": 16, "timeout": 6000}),
+        ],
+    },
     "C03": {
         "technique": "rapid random generation of (diff, sub-sequence, target) triples, differential oracle = independent reference interpreter of strict hunks",
         "level_text": "List-mode diffs of generated pairs, arbitrary sub-sequences of their hunks and targets perturbed around the positions the "
